@@ -16,10 +16,13 @@ ASSUMPTIONS = ["options are given as separate short arguments (getopt's bundling
 BUDGET = {"quick": 600, "thorough": 3600}
 
 VALUES = [None, True, 1, 1.5, "a", "YQ", [], [1, 2], {}, {"a": 1}, [[3], {"b": [4]}], "eyJhIjoxfQ", {"a": {"b": 2}, "c": [5, 6]},
+          # false; base64url text of JSON scalars (what -y must load just like objects): 1, true, "a", null, false
+          False, "MQ", "dHJ1ZQ", "ImEi", "bnVsbA", "ZmFsc2U", "WzEsMl0",
           # members given in non-sorted order (every output option prints objects with sorted keys, at every depth)
           {"b": 1, "a": 2}, [{"z": 1, "a": {"y": 0, "b": [{"d": 1, "c": 2}]}}], {"k": {"z": 1, "a": 2}, "b": 0}]
 NAMES = ["a", "b", "0", "1", "-1", "-3", "9", "x y", ""]
 COUNTS = [0, 1, 2, 5]
+UCOUNTS = [-1, -2, 4294967295, 4294967297]        # -M and -i take an unsigned count: these must not act as small counts
 TCOUNTS = [0, 1, 2, -1, -2, 7]
 FILES = ["-", "f1", "f2"]
 NOARG = list("XOASIRNTFB0EQUcaxleYy")
@@ -27,7 +30,7 @@ NOARG = list("XOASIRNTFB0EQUcaxleYy")
 
 def opt_variants():
     out = [(c, None) for c in NOARG]
-    out += [("M", c) for c in COUNTS] + [("i", c) for c in COUNTS] + [("t", c) for c in TCOUNTS]
+    out += [("M", c) for c in COUNTS + UCOUNTS] + [("i", c) for c in COUNTS + UCOUNTS] + [("t", c) for c in TCOUNTS]
     out += [("j", v) for v in VALUES] + [("q", s) for s in ("", "s", "é")]
     out += [(c, f) for c in "ofu" for f in FILES]
     out += [(c, n) for c in "dgs" for n in NAMES]
